@@ -797,12 +797,20 @@ func isNillable(t types.Type) bool {
 	return false
 }
 
+// FieldName is the name terms use for field i of struct type t (positional for unexported repository fields).
+func FieldName(t types.Type, i int) string { return fieldName(t, i) }
+
 func fieldName(t types.Type, i int) string {
 	if p, ok := t.Underlying().(*types.Pointer); ok {
 		t = p.Elem()
 	}
 	if s, ok := t.Underlying().(*types.Struct); ok && i < s.NumFields() {
-		return s.Field(i).Name()
+		f := s.Field(i)
+		// unexported fields of repository types are named by position: renaming one is not a change of the program
+		if !f.Exported() && f.Pkg() != nil && strings.HasPrefix(f.Pkg().Path(), Module) {
+			return "#" + fmt.Sprint(i)
+		}
+		return f.Name()
 	}
 	return fmt.Sprint(i)
 }
